@@ -135,6 +135,13 @@ def run(ctx):
     ctx.instance(R3, "Heartbeat[wrong TestReqID => disconnected]", ok, "after a Heartbeat with a wrong TestReqID the session is not disconnected", loc(hb))
     match = [e for e in evs_for("match") if e.site == "treq_write" and e.info[1] == "clear" and e.info[0].endswith("_process_heartbeat")]
     ctx.instance(R3, "Heartbeat[matching TestReqID clears the outstanding id]", bool(match), "a matching Heartbeat does not clear the outstanding id", loc(hb))
+    # the echo is honoured when it arrives - also ahead of a gap (Heartbeats are never retransmitted, only gap-filled) and while a resend is awaited
+    for st0, o in (("ACTIVE", "GT"), ("RESENDREQ_AWAITING", "GT"), ("RESENDREQ_AWAITING", "EQ")):
+        got = [e for e in it.events if e.s.kind == "HEARTBEAT" and e.s.hbt == "match" and e.s.state0 == st0 and e.s.ord == o and e.s.integ == "ok"
+               and e.site == "treq_write" and e.info[1] == "clear" and e.info[0].endswith("_process_heartbeat")]
+        ctx.instance(R3, f"Heartbeat[matching TestReqID honoured in {st0} at {o}]", bool(got),
+                     f"a Heartbeat echoing the outstanding TestReqID that arrives in state {st0} numbered {o} the expected number does not clear the outstanding id: "
+                     "Heartbeats are never retransmitted, so the answering peer is cut by the TestRequest time-out", loc(hb))
     absent = [e for e in evs_for("absent") if e.site in ("treq_write",) or (e.site == "encode" and e.info[1] == "LOGOUT")]
     ctx.instance(R3, "Heartbeat[no TestReqID => ignored by the watchdog]", not absent,
                  "an interval Heartbeat without TestReqID clears the outstanding id or ends the session", loc(hb), wit(absent[0]) if absent else [])
@@ -172,6 +179,11 @@ def run(ctx):
                      f"the {name} {fmt_lin(cut)} is not strictly later than the TestRequest threshold {fmt_lin(t_req)} for every P >= 1: a responsive peer is cut before it is probed", loc(nn))
         ctx.instance(R4, f"{name} >= one interval", cut[0] >= 1 and cut[0] + cut[1] >= 1,
                      f"the {name} {fmt_lin(cut)} is shorter than one heartbeat interval: a peer sending at the agreed rate is disconnected", loc(nn))
+    # the property lets a live peer answer up to two intervals late: neither cut-off may fire before 2P
+    for name, cut, nn in (("silence cut-off", t_cut, n2), ("TestRequest time-out", t_to, n3)):
+        ctx.instance(R4, f"{name} >= 2P", cut[0] >= 2 and (cut[0] - 2) + cut[1] >= 0,
+                     f"the {name} {fmt_lin(cut)} is shorter than two heartbeat intervals: a live peer whose Heartbeat echo arrives between one and two intervals "
+                     "after the TestRequest is disconnected before its answer lands", loc(nn))
     total = (t_req[0] + t_to[0], t_req[1] + t_to[1])
     ctx.instance(R4, "dead peer cut within 3P", total[0] <= 3 and (total[0] < 3 or total[1] <= 0),
                  f"a silent peer is disconnected after {fmt_lin(total)} at the earliest: more than three heartbeat intervals", loc(n3))
